@@ -48,7 +48,10 @@ OPTS = {G.G_USER: b"\x12\x34", G.G_COMPUTER: b"\xab\xcd", G.G_DOMAIN: b"\x00\x01
 
 
 def configs():
-    return {"minimal": tlv.encode([(1, 1, b"\x00\x00"), (2, 1, b"\x00\x50")]), "realistic": RC.http_block()}
+    # "large": settings reach beyond byte 4096 of the 6144-byte protected area
+    large = RC.http_block(extra=[(32, 3, bytes(lcg(1200, 5))), (33, 3, bytes(lcg(1100, 6))), (34, 3, bytes(lcg(900, 7))), (35, 1, b"\x00\x02"), (29, 3, b"%windir%\\syswow64\\rundll32.exe\x00".ljust(64, b"\x00")), (37, 2, b"\x00\x00\x30\x39")])
+    assert 4200 < len(large) < G.CONFIG_SIZE
+    return {"minimal": tlv.encode([(1, 1, b"\x00\x00"), (2, 1, b"\x00\x50")]), "realistic": RC.http_block(), "large": large}
 
 
 def plan(tier, seed):
@@ -65,10 +68,12 @@ def plan(tier, seed):
     return ch
 
 
-def extract(payload: bytes):
+def extract(payload: bytes, xor_keys=None):
     from dissect.cobaltstrike import beacon
 
     try:
+        if xor_keys is not None:
+            return beacon.BeaconConfig.from_bytes(payload, xor_keys=xor_keys)
         return beacon.BeaconConfig.from_bytes(payload)
     except ValueError as e:
         return f"ValueError: {e}"
@@ -77,7 +82,7 @@ def extract(payload: bytes):
 
 
 def check_positive(acc, payload, area_off, cfg_block, key, options, label, case, image=None):
-    bc = extract(payload)
+    bc = extract(payload, [bytes.fromhex(k) for k in case["xor_keys"]] if case.get("xor_keys") else None)
     acc.transitions += 1
     acc.case(label, outcome=bc[:30] if isinstance(bc, str) else (len(bc.settings_tuple), len(key)))
     if isinstance(bc, str):
@@ -156,6 +161,20 @@ def chunk_options(chunk, acc):
                 area, cb, g = G.protect(C["realistic"], key, opts)
                 payload = b"\x90" * 16 + area
                 check_positive(acc, payload, 16, C["realistic"], key, opts, ("opts", order), {"kind": "positive", "keylen": 11, "family": "lcg", "config": "realistic", "options": list(order), "pre": 16, "post": 0, "container": "raw-nop", "seed": acc.seed})
+    # a configuration that fills most of the protected area, and the caller's single-byte key list given explicitly
+    # (the documented default list, its reverse, the Guardrails key alone): the same result as without the argument
+    opts = [(G.G_COMPUTER, OPTS[G.G_COMPUTER])]
+    for cname in ("large", "realistic"):
+        for n in (2, 11, 256):
+            key = env_key(n, "lcg", acc.seed)
+            area, cb, g = G.protect(C[cname], key, opts)
+            payload = b"\x90" * 16 + area + b"\x90" * 9
+            for xk in (None, ["69", "2e", "00"], ["00", "2e", "69"], ["2e"]):
+                acc.states += 1
+                case = {"kind": "positive", "keylen": n, "family": "lcg", "config": cname, "options": [G.G_COMPUTER], "pre": 16, "post": 9, "container": "raw-nop", "seed": acc.seed}
+                if xk:
+                    case["xor_keys"] = xk
+                check_positive(acc, payload, 16, C[cname], key, opts, ("big", cname, n, tuple(xk or ())), case)
     acc.sample({"guard_option_subsets": 15, "orders": "as listed and reversed"})
 
 
@@ -333,7 +352,7 @@ def replay(case):
         opts = [(o, OPTS[o]) for o in case["options"]]
         area, cb, g = G.protect(C[case["config"]], key, opts)
         if case["container"] == "raw-nop":
-            pre, post = b"\x90" * case["pre"], b""
+            pre, post = b"\x90" * case["pre"], b"\x90" * case.get("post", 0)
         elif case["pre"] == 37:
             pre, post = bytes(lcg(37, case["seed"] + 1)), bytes(lcg(50, case["seed"] + 2))
         else:
